@@ -420,6 +420,56 @@ func checkTree(c *h.Ctx, docText string, specs []anySpec, full bool) {
 				}
 			}
 		}
+		// strict mode: several member accessors after one .** all skip what they
+		// do not apply to (the relaxation lasts for the whole rest of the chain)
+		if !lax && listings != nil && len(listings) > 0 {
+			for si, spec := range specs {
+				if spec.leaves || si%3 != 0 {
+					continue
+				}
+				sel := selectLevels(doc, listings[0], spec.first, spec.last, spec.leaves)
+				for _, steps := range [][]string{{".*", ".*"}, {"[*]", ".a"}, {".*", "[*]"}, {".a", ".b"}, {"[*]", "[*]", ".a"}, {".*", ".a", ".*"}, {".a", "[*]", ".*"}} {
+					ptxt := "strict $" + spec.text + strings.Join(steps, "")
+					p := cachedPath(ptxt)
+					if p == nil {
+						continue
+					}
+					o := h.Call("query", p, h.Decode(docText, c15UseNum), h.Opts{})
+					c.Eval(1)
+					want := sel
+					for _, st := range steps {
+						var next []any
+						for _, it := range want {
+							switch st {
+							case ".*":
+								if m, ok := it.(map[string]any); ok {
+									for _, k := range h.SortedKeys(m) {
+										next = append(next, m[k])
+									}
+								}
+							case "[*]":
+								if a, ok := it.([]any); ok {
+									next = append(next, a...)
+								}
+							default:
+								if m, ok := it.(map[string]any); ok {
+									if v, ok := m[st[1:]]; ok {
+										next = append(next, v)
+									}
+								}
+							}
+						}
+						want = next
+					}
+					cs := h.Case{Kind: "any", Path: ptxt, Doc: docText, UseNum: c15UseNum}
+					if o.Class != h.OK || h.CanonBag(o.Items) != h.CanonBag(want) {
+						c.Violate("strict.skip", h.F("mode", "strict", "kind", "chain-after-descent", "steps", fmt.Sprint(len(steps))), fmt.Sprintf("Query(%s) on %s = %s; skipping what each accessor does not apply to gives %s", ptxt, docText, o.Summary(), h.CanonBag(want)), cs)
+					} else {
+						c.Held("strict.skip")
+					}
+				}
+			}
+		}
 		// equivalences on real executions
 		if full {
 			mode := ""
@@ -555,6 +605,11 @@ var c15ChainSpecs = []string{".**", ".**{1}", ".**{2}", ".**{3}", ".**{1 to 2}",
 
 func replayC15(c *h.Ctx, cs h.Case) {
 	c15UseNum = cs.UseNum
+	if cs.Kind == "deep" {
+		c.Note("replay: deep chains are rebuilt by the run itself: ./check C15 quick (deterministic section)")
+		runC15(c)
+		return
+	}
 	if cs.Kind == "alias" {
 		checkAliased(c, cs.Doc, !strings.HasPrefix(cs.Path, "strict "))
 		return
@@ -589,6 +644,40 @@ func runC15(c *h.Ctx) {
 	for i := 0; i < n; i++ {
 		c15UseNum = i%2 == 1
 		checkTree(c, gen.Doc(r, dc), specs, true)
+	}
+	// chains nested far deeper than any decoder limit (documents built as Go
+	// values): every level is a node
+	for di, depth := range []int{50, 9999, 10001, 12000, c.N(15000, 60000)} {
+		if !c.Mine(di) {
+			continue
+		}
+		var v any = "leaf"
+		for i := 0; i < depth; i++ {
+			if i%2 == 0 {
+				v = map[string]any{"k": v}
+			} else {
+				v = []any{v}
+			}
+		}
+		for _, tc := range []struct {
+			path string
+			want int
+		}{{"$.**", depth + 1}, {"$.**{last}", 1}, {fmt.Sprintf("$.**{%d}", depth), 1}, {fmt.Sprintf("$.**{%d to last}", depth-3), 4}, {"strict $.**.k", (depth + 1) / 2}, {fmt.Sprintf("$.**{%d}", depth+1), 0}} {
+			c.Journal(fmt.Sprintf("deep chain depth=%d path=%s", depth, tc.path))
+			o := h.Call("query", cachedPath(tc.path), v, h.Opts{})
+			oe := h.Call("exists", cachedPath(tc.path), v, h.Opts{})
+			c.Eval(2)
+			c.Distinct("deep", tc.path, fmt.Sprint(depth))
+			if o.Class != h.OK || len(o.Items) != tc.want || oe.Class != h.OK || oe.Bool != (tc.want > 0) {
+				got := o.Class
+				if o.Class == h.OK {
+					got = fmt.Sprintf("%d items", len(o.Items))
+				}
+				c.Violate("anylevel", h.F("kind", "deep-chain"), fmt.Sprintf("Query(%s) on a chain nested %d deep: %s (Exists %s); every level is a node: %d items", tc.path, depth, got, oe.Summary(), tc.want), h.Case{Kind: "deep", Path: tc.path, Extra: map[string]string{"depth": fmt.Sprint(depth)}})
+			} else {
+				c.Held("anylevel")
+			}
+		}
 	}
 	// one recursive descent inside another, on deep trees whose objects have several members
 	deep := gen.DocCfg{Depth: 6, MaxKids: 3, Keys: []string{"a", "b", "c", "d"}, Strs: []string{"s"}, Nums: []string{"1", "2"}}
